@@ -368,6 +368,18 @@ CLAIMED["C24"] = (
     COMMON_NOTE + "targetChanged, HasAbsoluteSource and the graph accessors are assumed functions of their arguments.",
     "contract-based deductive verification (loop invariants over sets-as-maps, call-site obligations + SMT)", "6/C24")
 
+CLAIMED["C29"] = (
+    "Proof that link following in the CAS file system view is bounded and well-directed: open starts openFollowing with zero hops; "
+    "openFollowing follows only relative targets, resolves them beside the link, and the number of hops still allowed is non-negative and "
+    "strictly decreases at every recursive call (a termination measure stated as a call-site obligation), so a symlink loop ends in an "
+    "error — this exposed the unbounded recursion repaired by the fix commit recorded in known_findings.json. dir.ReadDir: a call with n <= 0 "
+    "lists every directory, file and symlink (counting invariants), a call with n > 0 returns at most n entries; that successive chunked calls "
+    "continue and end with io.EOF does NOT hold and is a RECORDED KNOWN FINDING (region n > 0, canary; demonstrated in findings/C29). "
+    "Kernel-only: findNode path resolution, Stat and the file/dir info types are not under contract; a tree whose child digests are "
+    "missing from the tree (nil directories) is outside the precondition.",
+    COMMON_NOTE + "findNode, openFile, openDir and the info constructors are opaque; pb message structs are modelled field by field.",
+    "contract-based deductive verification (termination measure as call-site obligation, counting invariants, known-finding region + SMT)", "6/C29")
+
 NOT_APPLICABLE = {
     "C05": "liveness / whole-run exit status under all schedules: no per-call contract expresses it (safety fragment is under C04)",
     "C30": "OS process groups, signals and wall-clock bounds; goroutines and select are outside the sequential contract model",
